@@ -25,6 +25,18 @@
 using namespace vh;
 static Ctx C;
 
+// Objects created with `new` (the list entries) start with a known fill pattern instead of whatever the allocator leaves: a member
+// the constructor forgets then has a defined, unfavourable value. The pattern is chosen per case from the reset line (0x00 / 0xA5 /
+// 0xBE), so a replay reproduces it; code without uninitialised reads cannot depend on it (the model has no such input).
+static unsigned char g_fill = 0xBE;
+static void *filledNew(size_t n) { void *p = malloc(n ? n : 1); if (!p) abort(); memset(p, g_fill, n); return p; }
+void *operator new(size_t n) { return filledNew(n); }
+void *operator new[](size_t n) { return filledNew(n); }
+void operator delete(void *p) noexcept { free(p); }
+void operator delete[](void *p) noexcept { free(p); }
+void operator delete(void *p, size_t) noexcept { free(p); }
+void operator delete[](void *p, size_t) noexcept { free(p); }
+
 // ------------------------------------------------------------------------------------------------ real objects
 struct DL : public tN2kDeviceList {
   explicit DL(tNMEA2000 *n) : tN2kDeviceList(n) {}
@@ -70,7 +82,13 @@ static std::string kind = "none";           // input class of the current messag
 // so the addresses it touched (and the all-ones NAME a short read yields) carry no product-information requirement afterwards
 static bool taintSrc[254]; static bool taintOnes = false;
 
-static void refReset() { memset(bySrc, 0, sizeof bySrc); byName.clear(); for (auto &i : info) i = Info(); memset(taintSrc, 0, sizeof taintSrc); taintOnes = false; }
+// name requests: an entry without NAME is asked for its address claim at most once when it is reserved and 20 times afterwards; the
+// sequence starts again only when the source was silent for 60 s ("if device has been off and appears again", HandleMsg)
+struct NameReq { bool active = false; long cnt = 0; uint64_t last = 0; };
+static NameReq nameReq[254];
+static void refReset() {
+  for (auto &x : nameReq) x = NameReq();
+  memset(bySrc, 0, sizeof bySrc); byName.clear(); for (auto &i : info) i = Info(); memset(taintSrc, 0, sizeof taintSrc); taintOnes = false; }
 static void forgetSrc(int s) { if (bySrc[s]) { byName.erase(bySrc[s]); bySrc[s] = 0; } info[s] = Info(); }
 static void forgetName(uint64_t n) { auto it = byName.find(n); if (it != byName.end()) { bySrc[it->second] = 0; info[it->second] = Info(); byName.erase(it); } }
 
@@ -276,6 +294,18 @@ static void doMsg(const std::string &line, unsigned long pgn, int src, const std
   if (req.empty()) req = "-";
   C.out("n=%u p=%d u=%d req=%s", L->Count(), L->pending() ? 1 : 0, L->updated() ? 1 : 0, req.c_str());
   // oracle
+  if (pgn == 60928) for (auto &x : nameReq) x.active = false;          // claims move / rename entries: start counting afresh
+  else if (src < 254) {
+    const tNMEA2000::tDevice *e = L->FindDeviceBySource(src); NameReq &q = nameReq[src];
+    long asked = 0; for (auto &f : N->sent) if (((f.id >> 16) & 0xff) == 0xEA && f.len == 3 && ((f.id >> 8) & 0xff) == (unsigned)src && (f.buf[0] | f.buf[1] << 8 | (unsigned long)f.buf[2] << 16) == 60928) asked++;
+    if (!e || e->GetName() != 0) q.active = false;
+    else {
+      if (!q.active) { q.active = true; q.cnt = asked; }
+      else { q.cnt += asked; if (g_now - q.last >= 60000) q.cnt = 0; }
+      q.last = g_now;
+      if (q.cnt > 21) C.fail("C18:name-request-restart", "source %d without NAME was asked for its address claim %ld times without having been silent for 60 s (1 + 20 allowed)", src, q.cnt);
+    }
+  }
   refMessage(pgn, src, d);
   if (parkedNow && bySrc[src] == le64(d)) info[src].parked = true;
   checkAll();
@@ -285,6 +315,7 @@ static void doMsg(const std::string &line, unsigned long pgn, int src, const std
 }
 
 static void doReset(bool canSend, uint64_t now) {
+  static const unsigned char fills[3] = {0x00, 0xA5, 0xBE}; g_fill = fills[now % 3];
   delete L; L = nullptr; delete N;
   N = new MockN2k();
   N->SetDeviceInformation(4711, 130, 25, 2046);
@@ -609,6 +640,20 @@ static void requestStory(Rng &R, int variant) {
   exec("bysrc " + std::to_string(s1)); exec("count"); exec("upd");
 }
 
+// name request story: sources that never claim keep sending; the name is requested 1 + 20 times, again only after 60 s of silence
+static void nameRequestStory(Rng &R, int variant) {
+  uint64_t org = (variant & 1) ? g_now + 2000 + R.below(3000) : pickOrigin(R); if ((variant & 2) && org < 70000) org += 70000;
+  org += (3 + variant % 3 - org % 3) % 3;                      // all three fill patterns
+  exec("reset 1 " + std::to_string(org));
+  int s1 = (int)R.below(254), s2 = (s1 + 1 + (int)R.below(252)) % 254;
+  static const unsigned long pg[] = {127250, 129026, 130306};
+  for (int i = 0; i < 30; i++) { exec("data " + std::to_string(s1) + " " + std::to_string(pg[R.below(3)])); if (i < 3 || R.chance(1, 5)) exec("last " + std::to_string(s1));
+    if (variant & 4) exec("data " + std::to_string(s2) + " 127250"); exec("t " + std::to_string(50 + R.below(900))); }
+  exec("bysrc " + std::to_string(s1));
+  exec("t 60001"); for (int i = 0; i < 25; i++) { exec("data " + std::to_string(s1) + " 129026"); exec("t " + std::to_string(20 + R.below(300))); }
+  exec("count");
+}
+
 // small-scope exhaustive: every sequence of length `len` over claims {2 sources x 3 names(0,A,B)} + data from the 2 sources
 static void exhaustive(int len) {
   std::vector<std::string> alpha;
@@ -641,6 +686,8 @@ int main(int argc, char **argv) {
   C.sample("product information stories: known P, then {address move | nothing | re-claim | displaced and moved} x first message after = {P byte-identically | a different record | "
            "P with exactly one field changed: each number, each of the 4 strings in a middle character / the last character / the length}, then a different Q and P again; "
            "bysrc/byname/upd after every message");
+  for (int rep = 0; rep < (C.thorough ? 3 : 1); rep++) for (int v = 0; v < 12; v++) nameRequestStory(R, v);
+  C.sample("name request stories: sources that never claim send 30 + 25 messages (a 60 s pause between); entries start from memory filled with 0x00 / 0xA5 / 0xBE; clock below and above 60 s, around 2^31 / 2^32");
   for (int rep = 0; rep < (C.thorough ? 4 : 1); rep++) for (int v = 0; v < 32; v++) requestStory(R, v);
   C.sample("request sequencing stories: information delivered or withheld step by step over virtual time (1 or 2 devices), all three request loops and their limits of 4");
   int ncases = C.thorough ? 900 : 120;
